@@ -33,6 +33,10 @@ CHECKS = {
          "over unbounded symbolic ints / pairs / triples, symbolic str/bytes, and instances of ten structured flavours, against a "
          "15-line reference; input compared with a rebuilt snapshot.", "4/C18",
          "CrossHair symbolic execution of serdes.iteritems/itervalues, z3 path exhaustion, native replay"),
+ "C10": ("E1 on the call shape, one condition per signature: symbolic number of positional arguments, symbolic keyword-presence booleans, "
+         "unbounded symbolic payloads; per-parameter unmarshallers replaced by tagging stubs so that what f receives shows which "
+         "parameter's routine converted each argument; inspect.Signature.bind is the oracle for acceptance and routing; an end-to-end "
+         "variant keeps the real unmarshallers.", "4/C10", "CrossHair symbolic execution of bind()/wrap() over call shapes vs inspect.Signature.bind, z3 path exhaustion, native replay"),
 }
 NA = {
  "C17": "flat catalogue of CPython type objects compared with CPython's own issubclass/typing internals: neither side can be encoded for a solver and there is no value, shape, state or history to make symbolic (DESIGN.md section 7)",
